@@ -110,14 +110,14 @@ Definition ante_multi (e : env) (s : state) (msgs : list tx) : Z + state :=
                   end
          end.
 
-(* [ctxgas]: ResponseDeliverTx.GasUsed, used only when validateBasic fails or the ante handler panics (Model.v o_ctxgas) *)
+(* [ctxgas]: ResponseDeliverTx.GasUsed, used only when validateBasicTxMsgs fails (Model.v o_ctxgas) *)
 Definition deliver_multi (e : env) (s : state) (ctxgas : Z) (ops : list (tx * oracle)) : state * mresult :=
   let msgs := map fst ops in
   if (0 <=? e_blim e) && (e_blim e <=? s_bgas s) then (s, MRejected 1)
   else if (match msgs with [] => true | _ => false end) || negb (forallb basic_valid msgs) then
     (with_bgas s (s_bgas s + ctxgas), MRejected 2)
   else match ante_multi e s msgs with
-       | inl why => (if why =? 10 then with_bgas s (s_bgas s + ctxgas) else s, MRejected why)
+       | inl why => (s, MRejected why)
        | inr s1 =>
            match exec_all e s1 ops with
            | None => (with_bgas s1 (s_bgas s + gas_sum msgs), MMsgErr)
